@@ -77,6 +77,22 @@ CHECKS = {
         note="Histories bounded to <= 4-6 writes over 3 abstract targets; capacity K of the model mapped onto the code's "
              "constant 256 by blocks of 256/K real files written in sequence. Files are tokenised by the harness (header "
              "lines, records, JSON top-level values). Trusted: TLC, the tokeniser, the fixed table of CLI forms."),
+    "C11": dict(
+        engine="verbs-select",
+        technique="TLA+ definitions of the selecting verbs over whole streams (VerbsSelect.tla); laws of the property checked "
+                  "by TLC on the definitions; TLC-enumerated cases executed on the rebuilt binary and judged by TLC "
+                  "(VerbsSelectGen/VerbsSelectObs.tla)",
+        level=dict(category="model_checking", design_ref="DESIGN.md §4.5, §5 C11",
+                   text="Every selecting verb (head incl. negative counts, tail incl. +k, decimate -b/-e, filter/-x over boolean "
+                        "and absent expressions, having-fields, tac, group-by, group-like, uniq -a [-c|-n], "
+                        "skip-trivial-records, nothing, cat -n/-N/-g; shuffle, bootstrap, sample as predicates) is a "
+                        "definition over the whole input stream. TLC proves the laws of the statement on the definitions "
+                        "(outputs are sub-multisets, head k ++ tail +(k+1) = input, filter/filter -x partition, tac twice, "
+                        "group sizes add up) over the whole bounded space, enumerates every (configuration, stream) case, "
+                        "and judges the real binary's output for each."),
+        note="Bounded: streams of <= 3 (quick) / 4 (thorough) records over 6 record shapes, counts in {-2..3,5}, <= 2 group-by "
+             "fields. grep and regex modes of having-fields not modelled. Trusted: TLC; the harness only spells options and "
+             "splits DKVP lines (corruption self-test on every run)."),
 }
 
 NOT_BUILT = "engine not built yet in this round (see DESIGN.md §9 work order)"
@@ -115,6 +131,7 @@ def main():
     for c in checks:
         engines.setdefault(c["engine"], []).append(c["property_id"])
     ENGINE_INFO = {
+        "verbs-select": ("spec/VerbsSelect.tla", "TLA+ stream-level definitions + TLC case enumeration + TLC-judged real runs"),
         "fanout": ("spec/FanOut.tla", "TLA+ requirement + implementation model of the output-handle cache, refinement by TLC, "
                                       "history replay through the CLI, trace validation of the cache"),
         "inplace": ("spec/InPlace.tla", "TLA+ spec of the -I protocol + TLC-enumerated crash replay + trace/state validation"),
